@@ -104,6 +104,11 @@ type Script struct {
 	// GateStart parks the library's BDAT delivery goroutine on a harness gate
 	// ("start<n>") before it calls the backend (needs the verif hook).
 	GateStart bool `json:"gate_start,omitempty"`
+	// GateAccept parks the goroutine serving a freshly accepted connection on
+	// the gate "accept<n>" (n = order of arrival) before the library
+	// registers the connection with the server (verif hook): the harness
+	// decides whether Server.Close / Shutdown lands before or after.
+	GateAccept bool `json:"gate_accept,omitempty"`
 	// DefaultData is used when Data is exhausted (zero value: read all, accept).
 	DefaultData *DataPlan `json:"default_data,omitempty"`
 }
@@ -198,6 +203,7 @@ type Backend struct {
 	nData    int
 	nAuth    int
 	nSASL    int
+	nAccept  int
 	nStart   int
 	gates    map[string]*gate
 	openAll  bool
@@ -318,6 +324,19 @@ func (b *Backend) CloseGatesAgain() {
 	b.hub.mu.Lock()
 	b.openAll = false
 	b.hub.mu.Unlock()
+}
+
+// connAccepted is called (through the library's verif hook) by the goroutine
+// serving a freshly accepted connection, before the connection is registered.
+func (b *Backend) connAccepted() {
+	if !b.script.GateAccept {
+		return
+	}
+	b.hub.mu.Lock()
+	n := b.nAccept
+	b.nAccept++
+	b.hub.mu.Unlock()
+	b.waitGate(fmt.Sprintf("accept%d", n))
 }
 
 // bdatStart is called (through the library's verif hook) by the goroutine
